@@ -56,7 +56,7 @@ def _cases(draw, tier):
             ze = min(top, ghi + draw(st.integers(1, 9)))
         off = draw(st.integers(0, ze - zs))
         n = draw(st.integers(1, min(3, ze - zs - off + 1)))
-        how = draw(st.sampled_from(['memzone-then-fill', 'zone-relative-origin', 'memzone-then-fill']))
+        how = draw(st.sampled_from(['memzone-then-fill', 'zone-relative-origin', 'memzone-then-fill', 'create-zone-inside-it']))
         return {'kind': 'predefined-zone-outside-global', 'asz': asz, 'global': [glo, ghi], 'zone': [zs, ze], 'where': where,
                 'offset': off, 'count': n, 'how': how, 'endian': draw(st.sampled_from(['big', 'little']))}
     if draw(st.integers(0, 5)) == 0:
@@ -135,12 +135,15 @@ def _execute_outside(case):
            'operand_sets': {'imm': {'operand_values': {'i': {'type': 'numeric', 'argument': {'size': 8, 'byte_align': True}}}}},
            'instructions': {'nop': {'bytecode': {'value': 0xEA, 'size': 8}}}}
     off, n = case['offset'], case['count']
-    if case['how'] == 'zone-relative-origin':
+    if case['how'] == 'create-zone-inside-it':
+        # a zone declared in source inside the predefined one: it must be contained in GLOBAL like any source zone
+        src = f'#create_memzone ports {zs + off} {zs + off + n - 1}\n.byte 1\n.memzone ports\n.fill {n}, $55\n'
+    elif case['how'] == 'zone-relative-origin':
         src = f'.byte 1\n.org {off} "io"\n.fill {n}, $55\n'
     else:
         src = '.byte 1\n.memzone io\n' + (f'.zero {off}\n' if off else '') + f'.fill {n}, $55\n'
         # (the zeros in front are bytes too)
-    first = zs + (off if case['how'] == 'zone-relative-origin' else 0)
+    first = zs + (off if case['how'] in ('zone-relative-origin', 'create-zone-inside-it') else 0)
     last = zs + off + n - 1
     outside = first < glo or last > ghi
     fname, text = isagen.dump_isa(cfg, 'yaml')
